@@ -101,7 +101,7 @@ pub fn index_biased(rng: &mut Rng, sw: &Swarm, sut: &Sut, def: &TableDef, ix: &I
     let lit = |rng: &mut Rng| -> String {
         let l = gen_lit_for(rng, sw, sut, def, ci);
         match (&l, o.pred.mixed_numeric && rng.chance(1, 6)) {
-            (Lit::Int(i), true) if i.abs() < (1 << 40) => format!("{}.0", i),
+            (Lit::Int(i), true) if i.unsigned_abs() < (1u64 << 40) => format!("{}.0", i),
             _ => l.sql(),
         }
     };
